@@ -94,8 +94,8 @@ def rows_close(out, ref, tol):
 
 
 DTYPES = ['float64', 'int64', 'int32', 'float32', 'complex128']
-NSFORMS = ['list', 'tuple', 'ndarray', 'range', 'gen']
-NO_GENERATOR = {'cheby2', 'cheby4', 'cheby2_der', 'cheby4_der'}     # np.asarray(ns): need a sized sequence (see report)
+NSFORMS = ['list', 'tuple', 'ndarray', 'range', 'gen', 'iter', 'map']      # docstrings: `ns : iterable`
+NO_GENERATOR = set()
 
 
 def coords_dtype(rng, kind, N, lo, hi, dtype):
@@ -117,6 +117,10 @@ def ns_form(ns, form):
         return range(ns[0], ns[0] + len(ns))
     if form == 'gen':
         return (n for n in ns)
+    if form == 'iter':
+        return iter(list(ns))
+    if form == 'map':
+        return map(int, list(ns))
     return list(ns)
 
 
@@ -326,6 +330,13 @@ def correspondence(ctx):
                 d = pairs_vs_loop(p, kind, prs, a, b, norm=norm)
                 if d:
                     ctx.pred_fail(f'pairs:{kind}', case, d)
+            if li % 3 == 0 and kind in ('zern', 'zern_der', 'q2d', 'xy'):
+                form = ('tuple', 'gen', 'iter', 'ndarray')[(li // 3) % 4]
+                case3 = {**case, 'pairs_form': form}
+                ctx.case(f'pairs:{kind}', case3, nontrivial=len(prs) > 1, tag=f'pairs-as-{form}')
+                d = pairs_vs_loop(p, kind, prs, a, b, norm=True, form=form)
+                if d:
+                    ctx.pred_fail(f'pairs:{kind}', case3, d)
             if li % 4 == 0 and kind in ('zern', 'q2d', 'xy'):
                 dt = ('int64', 'float32', 'int32')[(li // 4) % 3]
                 if dt.startswith('int'):
@@ -451,22 +462,25 @@ def histories(ctx, p, scale):
                               f'{[w for w, _ in steps[:i]]}): {d}')
 
 
-def pairs_vs_loop(p, kind, prs, a, b, norm=True, tol=1e-10):
+def pairs_vs_loop(p, kind, prs, a, b, norm=True, tol=1e-10, form='list'):
     a0, b0 = np.array(a, copy=True), np.array(b, copy=True)
-    d = _pairs_vs_loop(p, kind, prs, a, b, norm, tol)
+    d = _pairs_vs_loop(p, kind, prs, a, b, norm, tol, form)
     if d is None and not (np.array_equal(a, a0) and np.array_equal(b, b0)):
         return f'{kind} seq modified its coordinate arguments in place'
     return d
 
 
-def _pairs_vs_loop(p, kind, prs, a, b, norm=True, tol=1e-10):
+def _pairs_vs_loop(p, kind, prs, a, b, norm=True, tol=1e-10, form='list'):
+    def F():
+        q = [tuple(v) for v in prs]
+        return {'tuple': tuple(q), 'gen': (v for v in q), 'iter': iter(q), 'ndarray': np.asarray(q)}.get(form, q)
     try:
         if kind == 'zern':
-            out = np.asarray(p.zernike_nm_seq(prs, a, b, norm=norm))
+            out = np.asarray(p.zernike_nm_seq(F(), a, b, norm=norm))
             ref = np.array([p.zernike_nm(n, m, a, b, norm=norm) for n, m in prs])
         elif kind == 'zern_der':
             aa = np.clip(a, 1 / 64, 1)
-            out = np.asarray(p.zernike_nm_der_seq(prs, aa, b, norm=norm))
+            out = np.asarray(p.zernike_nm_der_seq(F(), aa, b, norm=norm))
             ref = np.array([np.array(p.zernike_nm_der(n, m, aa, b, norm=norm)) for n, m in prs])
             want = (len(prs), 2, *np.shape(a))
             if out.shape != want:
@@ -476,17 +490,17 @@ def _pairs_vs_loop(p, kind, prs, a, b, norm=True, tol=1e-10):
             bad = [list(prs[i]) for i in range(len(prs)) if not close(out[i], ref[i], tol)]
             return f'zernike_nm_der_seq(norm={norm}) differs from zernike_nm_der for pairs {bad[:4]} (request {[list(q) for q in prs][:8]})'
         elif kind == 'q2d':
-            out = np.asarray(p.Q2d_seq(prs, a, b))
+            out = np.asarray(p.Q2d_seq(F(), a, b))
             ref = np.array([p.Q2d(n, m, a, b) * np.ones(np.shape(a)) for n, m in prs])
         elif kind in ('xy', 'xy_default'):
             kw = {'cartesian_grid': False} if kind == 'xy' else {}
-            out = np.asarray(p.xy_seq(prs, a, b, **kw))
+            out = np.asarray(p.xy_seq(F(), a, b, **kw))
             ref = np.array([p.xy(m, n, a, b, **kw) for m, n in prs])
             want = (len(prs), *np.shape(a))
             if ref.shape != want:
                 return f'xy returned mode shape {ref.shape[1:]} for coordinate shape {np.shape(a)}; xy_seq returned {out.shape}'
         elif kind == 'xy_grid':
-            out = np.array([o * np.ones(np.shape(a)) for o in p.xy_seq(prs, a, b)])
+            out = np.array([o * np.ones(np.shape(a)) for o in p.xy_seq(F(), a, b)])
             ref = np.array([p.xy(m, n, a, b) * np.ones(np.shape(a)) for m, n in prs])
             # xy and xy_seq share optimize_xy_separable: also compare with the monomials computed directly on the meshgrid
             direct = np.array([a ** m * b ** n for m, n in prs])
@@ -553,7 +567,7 @@ def search(ctx, hints):
                     return {'item': f'seq:{fam}', 'input': {'family': fam, 'params': list(plist[0]), 'ns': ns, 'shape': list(s)}, 'detail': d}
         for fam, (seq, one, plist, (lo, hi), drv, exact) in FAMS.items():
             for dt in ('int64', 'float32', 'complex128'):
-                for form in ('tuple', 'ndarray', 'gen'):
+                for form in ('tuple', 'ndarray', 'gen', 'iter'):
                     if form == 'gen' and fam in NO_GENERATOR:
                         continue
                     x = _det_coords((3,), lo, hi, dt)
@@ -609,7 +623,8 @@ def replay(inp):
             dt = c.get('dtype', 'float64')
             a = _det_coords(shp, 0, 1, dt) if dt.startswith('int') else _det_coords(shp, 0.1, 0.9, dt)
             b = _det_coords(shp, -2, 2, dt) if dt.startswith('int') else _det_coords(shp, -0.8, 0.7, dt)
-        d = pairs_vs_loop(p, kind, [tuple(q) for q in c['pairs']], a, b, norm=bool(c.get('norm', True)), tol=2e-5 if c.get('dtype') == 'float32' else 1e-10)
+        d = pairs_vs_loop(p, kind, [tuple(q) for q in c['pairs']], a, b, norm=bool(c.get('norm', True)), tol=2e-5 if c.get('dtype') == 'float32' else 1e-10,
+                          form=c.get('pairs_form', 'list'))
     elif fam in FAMS:
         lo, hi = FAMS[fam][3]
         k = tuple(c.get('params', FAMS[fam][2][0]))
@@ -638,13 +653,14 @@ MANIFEST_ENTRY = {
              'body of the final loop of zernike_nm_seq (= translated body of zernike_nm, for any sin/cos/sqrt).  MODELLED AND COMPARED: all 22 '
              'one-index *_seq vs a Python loop over the scalar function, ROW BY ROW at 1e-10 of the row, for all 255 ascending subsets of {0..7}, '
              'all subsets of moving windows {k..k+4} up to order 39, random gapped lists to order 40, shapes (), (5,), (3,4), (4,4), '
-             '(len(ns),3), (2,3,4), coordinate dtypes float64/int64/int32/float32/complex128, order lists as list/tuple/ndarray/range/generator, '
+             '(len(ns),3), (2,3,4), coordinate dtypes float64/int64/int32/float32/complex128, order lists as list/tuple/ndarray/range/generator/iter()/map() for EVERY *_seq (pair lists included), '
              'pure_call (arguments not modified, second call equal); Lean sweep on Float and exactly on Rat; pair lists (both signs, shared |m|, '
              'repeats, norm True/False, int/float32 coordinates) for Zernike / Zernike-der / 2D-Q / XY with independent oracles (x^m y^n on '
              'meshgrids with the default flag, 2D-Q azimuthal convention).  NOT COVERED / not tied by translation: jacobi_der_seq, Qbfs_seq, '
              'laguerre_der_seq, legendre_der_seq, zernike_nm_der_seq, Q2d_seq, xy_seq table-building loops and the table extents of '
-             'zernike_nm_seq (hand model + differential test only); integer coordinates in the *_der sweeps (handled under C09); generators as '
-             '`ns` for cheby2/4 (np.asarray(ns)); non-ascending lists and python-scalar x (outside the property).'),
+             'zernike_nm_seq (hand model + differential test only); integer coordinates in the *_der sweeps (handled under C09); non-ascending '
+             'lists and python-scalar x (outside the property).  Translator scope: calls to same-module helpers whose body is a single return '
+             'are inlined symbolically before translation; pair loops may be written `for n, m in nms` or `for k, (n, m) in enumerate(nms)`.'),
     'note': ('Trusted: Lean kernel + propext/Classical.choice/Quot.sound; tools/gen_c08.py (statement translation; symbolic shape reading of '
              'np.ones/np.squeeze/reshape/newaxis; dtype expressions x.dtype / np.result_type(x, 1.0) / config.precision); NumPy broadcasting = its '
              'shape rule; copy-vs-view of out[k] = v and in-place products on shared table rows are tested (norm=False, +-m pairs), not modelled.'),
